@@ -104,6 +104,9 @@ def generate(seed, batch):
         scen['workers'] = gen_workers(rng, npoints(scen['points']))
         scen['calls'] = rng.sample(['uvw', 'strain', 'stress'], rng.randint(1, 3))
         scen['F_given'] = rng.random() < 0.2
+        # re-definition of the laminate between two stress queries (the laminate matrix must follow the definition)
+        scen['redefine_lam'] = ({'stack': rng.choice(STACKS), 'plyt': rng.choice([1.25e-4, 2e-4, 0.5e-4]),
+                                 'offset': rng.choice([0.0, 1e-4, -2e-4])} if rng.random() < 0.3 else None)
     elif batch == 'A':
         scen['host'] = 'assembly'
         np_ = rng.randint(2, 4)
@@ -192,6 +195,10 @@ def shrink_candidates(scen):
     if scen['NLterms']:
         c = copy.deepcopy(scen)
         c['NLterms'] = False
+        yield c
+    if scen.get('redefine_lam'):
+        c = copy.deepcopy(scen)
+        c['redefine_lam'] = None
         yield c
     if pts.get('layout', 'C') != 'C':
         c = copy.deepcopy(scen)
@@ -529,6 +536,28 @@ def execute(scen):
             ctx = {'host': 'panel', 'model': d['model']}
             run_panel_like(scen, res, log, p, caller, c, gx, gy, dofs, p.r, Fgiven if Fgiven is not None else F,
                            set_workers, ctx)
+            rl = scen.get('redefine_lam')
+            if rl and dofs == 3 and 'kpanel' not in d['model']:
+                import compmech.composite.laminate as laminate
+                p.stack = list(rl['stack'])
+                p.plyts = [rl['plyt'] for _ in rl['stack']]
+                p.laminaprops = [LAMPROP for _ in rl['stack']]
+                p.plyt = rl['plyt']
+                p.offset = rl['offset']
+                Fnew = np.array(laminate.read_stack(p.stack, plyts=p.plyts, laminaprops=p.laminaprops, offset=p.offset).ABD, dtype=float)
+                p.out_num_cores = scen['workers'][0]
+                got = caller('stress', c, gx, gy, scen['NLterms']) if Fgiven is None else None
+                if got is not None:
+                    refs2, wrongs2 = reference_for(p, c, gx, gy, dofs, p.r, scen['NLterms'], Fnew)
+                    key = ('stress', scen['NLterms'])
+                    try:
+                        check_against_reference('stress', STRESSES, got, refs2[key], wrongs2.get(key),
+                                                dict(ctx, quantity_call='stress', after='laminate re-defined'), res)
+                    except Violation as v:
+                        if not getattr(v, 'known_id', None):
+                            v.invariant = 'G7-redefinition'
+                        raise
+                    bump(res['probes'], 'G7_laminate_redefinition_checked')
             for q in scen['calls']:
                 for w in scen['workers']:
                     sigs.append('panel/%s/%s/w%d/r%d/%s/nl%d/%s' % (d['model'][:6], q, w, npoints(pts) % w, pts['kind'],
